@@ -48,7 +48,7 @@ Apply(i, s2) ==
     /\ votes' = [votes EXCEPT ![i] = @ \cup VotedViews(s2.signed)]
     /\ tviews' = [tviews EXCEPT ![i] = @ \cup TViews(s2.signed)]
 Started(i) == H!Start(Env(i), H!InitReplica(i))
-Init == /\ rep = [i \in Nodes |-> H!InitReplica(i)]
+Init == /\ rep = [i \in Nodes |-> [H!InitReplica(i) EXCEPT !.timer = 1]]      \* (Start armed every replica's view timer for view 1)
         /\ net = {} /\ clog = [i \in Nodes |-> <<>>] /\ votes = [i \in Nodes |-> {}] /\ tviews = [i \in Nodes |-> {}] /\ tcount = 0
 \* Synchronizer.Start of every live replica happens first (one step: only the leader of view 1 acts)
 Boot == /\ net = {} /\ tcount = 0 /\ (\A j \in Nodes : rep[j].lv = 0 /\ rep[j].view = 1 /\ clog[j] = <<>>)
@@ -77,6 +77,8 @@ VoteOnce == \A i \in Live : \A a, b \in votes[i] : a[1] = b[1] => a = b
 Monotone == [][\A i \in Live : /\ rep'[i].view >= rep[i].view /\ Reg[rep'[i].hqc].view >= Reg[rep[i].hqc].view
                                /\ Reg[rep'[i].committed].view >= Reg[rep[i].committed].view /\ rep'[i].lv >= rep[i].lv
                                /\ rep'[i].htc >= rep[i].htc]_vars
+\* every live replica's view timer is armed for the view it is in (otherwise it would never leave that view by itself)
+TimerLive == \A i \in Live : rep[i].timer = rep[i].view
 \* non-vacuity (must be violated): somebody commits a block
 NobodyCommits == \A i \in Live : clog[i] = <<>>
 =============================================================================
